@@ -253,11 +253,10 @@ def r5(ctx):
 
 def check(ctx):
     ctx.explanation = (
-        "Order-sensitive decision table of DataIterator over seven abstract input kinds (the class table decides whether an isinstance "
-        "tuple covers every iterator class); CFG rules on _FeatureIterator.peek (append dominates every exit of a pass; re-chain in "
-        "order), on the single transform site in _BaseIterator.__iter__ (yield guarded by the result only), on create_db's re-use of the "
-        "peeked iterator with checklines=0, and on inspect's counter (post-dominates the loop body entry, precedes the limit test). Does "
-        "not decide equality of databases over all seven forms and all checklines (composition over runtime data).")
+        "DataIterator's dispatch is a decision table obtained by abstract evaluation over every kind of input; _FeatureIterator.peek is "
+        "evaluated on a one-shot stream value and on a list (what is returned, what the source still yields afterwards); the common iteration "
+        "path is evaluated with no / replacing / rejecting transforms; create_db's importer arguments and inspect's counters are read off "
+        "abstract traces. Does not decide equality of databases over all seven forms and all checklines (composition over runtime data).")
     r1(ctx)
     r2(ctx)
     r3(ctx)
